@@ -127,6 +127,12 @@ LAYERS = {
                                     C("sub", 0x2, 4, bitpos=4, bytepos=1), V("z", 4, bytepos=1)),
          "pos": [rq(C("sid", 0xF6), V("w"))]},
     ]},
+    # the constant prefix of the request is longer than a whole (negative) response of the service
+    "request-prefix-longer-than-response": {"services": [
+        {"name": "A", "request": rq(C("sid", 0x31), C("sub", 0x01), C("hi", 0xFF), C("lo", 0x00), V("arg")),
+         "pos": [rq(C("sid", 0x71), V("r"))], "neg": [NEG]},
+        {"name": "B", "request": rq(C("sid", 0x31), C("sub", 0x02), V("z")), "neg": [NEG2]},
+    ]},
     # a global negative response that is LONGER than a service's own negative response; a sibling
     # service with the same SID cannot interpret the message itself
     "long-gnr-short-neg": {"services": [
